@@ -306,6 +306,159 @@ std::string handle(const std::string& op, Args& a)
 			o << (int) (A.Transpose().Transpose() == A);
 		});
 	}
+	if(op == "c04.vhist")	// one Vector object, a sequence of member calls on it, every observer's value
+	{
+		Vector v   = rd_vec(a);
+		size_t nop = a.u64();
+		struct Op
+		{
+			std::string k;
+			unsigned i = 0;
+			double x   = 0;
+			std::vector<double> u;
+		};
+		std::vector<Op> ops(nop);
+		for(auto& o : ops)
+		{
+			o.k = a.tok();
+			if(o.k == "R" || o.k == "Z")
+				o.i = a.u64();
+			else if(o.k == "W" || o.k == "A")
+			{
+				o.i = a.u64();
+				o.x = a.dbl();
+			}
+			else if(o.k == "+" || o.k == "-" || o.k == "=" || o.k == "C")
+				o.u = a.dbls();
+			else if(!(o.k == "N" || o.k == "D" || o.k == "S" || o.k == "M" || o.k == "U"))
+				throw BadArgs("vector op " + o.k);
+		}
+		a.end();
+		return run_forked([&](Out& o) {
+			for(auto& p : ops)
+			{
+				if(p.k == "N")
+					o << v.Norm();
+				else if(p.k == "D")
+					o << v.Dot(v);
+				else if(p.k == "S")
+					o << v.Size();
+				else if(p.k == "M")
+				{
+					Vector w = v.Normalized();
+					for(unsigned i = 0; i < w.Size(); i++)
+						o << w[i];
+				}
+				else if(p.k == "U")
+					v.Normalize();
+				else if(p.k == "R")
+				{
+					const Vector& cv = v;
+					o << cv[p.i];
+				}
+				else if(p.k == "W")
+					v[p.i] = p.x;
+				else if(p.k == "+")
+					v += Vector(p.u);
+				else if(p.k == "-")
+					v -= Vector(p.u);
+				else if(p.k == "=")
+				{
+					Vector src(p.u);
+					v = src;
+				}
+				else if(p.k == "C")
+				{
+					Vector w(v);
+					w -= Vector(p.u);
+					o << w.Norm() << v.Norm();
+				}
+				else if(p.k == "Z")
+					v.Resize(p.i);
+				else if(p.k == "A")
+					v.Assign(p.i, p.x);
+			}
+		});
+	}
+	if(op == "c04.mhist")	// one Matrix object, a sequence of member calls on it
+	{
+		Matrix A   = rd_mat(a);
+		size_t nop = a.u64();
+		struct Op
+		{
+			std::string k;
+			unsigned i = 0, j = 0;
+			double x = 0;
+			Matrix B;
+		};
+		std::vector<Op> ops(nop);
+		for(auto& o : ops)
+		{
+			o.k = a.tok();
+			if(o.k == "R" || o.k == "Z")
+			{
+				o.i = a.u64();
+				o.j = a.u64();
+			}
+			else if(o.k == "W" || o.k == "A")
+			{
+				o.i = a.u64();
+				o.j = a.u64();
+				o.x = a.dbl();
+			}
+			else if(o.k == "DR" || o.k == "DC")
+				o.i = a.u64();
+			else if(o.k == "+" || o.k == "-" || o.k == "=" || o.k == "C")
+				o.B = rd_mat(a);
+			else if(!(o.k == "N" || o.k == "T" || o.k == "D" || o.k == "P" || o.k == "Y" || o.k == "S"))
+				throw BadArgs("matrix op " + o.k);
+		}
+		a.end();
+		return run_forked([&](Out& o) {
+			for(auto& p : ops)
+			{
+				if(p.k == "N")
+					o << A.Norm();
+				else if(p.k == "T")
+					o << A.Trace();
+				else if(p.k == "D")
+					o << A.Determinant();
+				else if(p.k == "P")
+					put(o, A.Transpose());
+				else if(p.k == "Y")
+					o << (int) A.Symmetric();
+				else if(p.k == "S")
+					o << A.Rows() << A.Columns();
+				else if(p.k == "R")
+				{
+					const Matrix& cA = A;
+					o << cA[p.i][p.j];
+				}
+				else if(p.k == "W")
+					A[p.i][p.j] = p.x;
+				else if(p.k == "+")
+					A += p.B;
+				else if(p.k == "-")
+					A -= p.B;
+				else if(p.k == "=")
+					A = p.B;
+				else if(p.k == "C")
+				{
+					Matrix C(A);
+					C -= p.B;
+					o << C.Norm() << A.Norm();
+				}
+				else if(p.k == "Z")
+					A.Resize(p.i, p.j);
+				else if(p.k == "A")
+					A.Assign(p.i, p.j, p.x);
+				else if(p.k == "DR")
+					A.Delete_Row(p.i);
+				else if(p.k == "DC")
+					A.Delete_Column(p.i);
+			}
+		});
+	}
 	throw BadOp();
 }
 }	// namespace hz
